@@ -131,6 +131,13 @@ async fn call(wb: &wcl::Worterbuch, sh: &Arc<Shared>, item: &Value, subs: &mut V
             let r = wb.cset_generic(key!("key"), val!(), ver).await;
             (match r { Ok(()) => ok, Err(e) => conn_err(&e) }, None, Some(ver))
         }
+        "swap" => {
+            // the library's compare-and-swap retry loop (update / swap -> try_update) with a transform that
+            // ignores the old value: as a whole it is "write this value, whatever the version is now"
+            let v = val!();
+            let r = wb.swap::<Value, Value, _>(key!("key"), move |_old| v.clone()).await;
+            (match r { Ok(()) => ok, Err(e) => conn_err(&e) }, None, None)
+        }
         "publish" => {
             let r = wb.publish_generic(key!("key"), val!()).await;
             (match r { Ok(()) => ok, Err(e) => conn_err(&e) }, None, None)
